@@ -3,7 +3,11 @@ package main
 import (
 	"encoding/json"
 	"fmt"
+	"io"
 	"sort"
+	"strings"
+
+	"github.com/sirupsen/logrus"
 
 	"gmsverif/lib/dml2"
 	"gmsverif/lib/dml2gen"
@@ -43,10 +47,14 @@ type c15Event struct {
 
 type c15Case struct {
 	h     int
-	names []string
+	names []string // tables read back before / after
 	tabs  map[string]*Table
 	stmts []*Stmt
 	ids   []int
+	// x-histories (foreign keys / triggers: outside the SQLTables grammar): own fixture, events
+	// xschema / xfault / xstmt, judged by "a failed statement changes no table" alone
+	x     string // "" | "fk" | "trig"
+	setup func() (*dml2.Fixture, []string, error)
 }
 
 type c15Runner struct {
@@ -62,6 +70,8 @@ type c15Runner struct {
 	trunc   int
 	changed int
 	rowpos  map[string]int
+	xmulti  int // x fault runs whose row edits reached another table than the statement's (cascade / trigger target)
+	xhist   map[string]int
 }
 
 func union(a, b map[string][][]Value) map[string][][]Value {
@@ -72,8 +82,15 @@ func union(a, b map[string][][]Value) map[string][][]Value {
 	return out
 }
 
+func (c *c15Case) newFixture() (*dml2.Fixture, []string, error) {
+	if c.setup != nil {
+		return c.setup()
+	}
+	return dml2.NewFixture(c.names, c.tabs)
+}
+
 func (r *c15Runner) fixture(c *c15Case, upto int) *dml2.Fixture {
-	fx, _, err := dml2.NewFixture(c.names, c.tabs)
+	fx, _, err := c.newFixture()
 	if err != nil {
 		vio.Fatal("history %d: %v", c.h, err)
 	}
@@ -90,15 +107,22 @@ func same(a, b map[string][][]Value) bool {
 }
 
 func (r *c15Runner) history(c *c15Case) {
-	main, create, err := dml2.NewFixture(c.names, c.tabs)
+	main, create, err := c.newFixture()
 	if err != nil {
 		vio.Fatal("history %d: %v", c.h, err)
 	}
-	ev := c15Event{Ev: "schema", H: c.h, Tabs: map[string]*Table{}, Autoinc: map[string]int{}, Create: create,
+	px := ""
+	if c.x != "" {
+		px = "x"
+	}
+	probes := r.o.probes && c.x == ""
+	ev := c15Event{Ev: px + "schema", H: c.h, Tabs: map[string]*Table{}, Autoinc: map[string]int{}, Create: create,
 		PreProbes: []dml2.Probe{}, Probes: []dml2.Probe{}, Ops: []string{}}
 	for _, n := range c.names {
-		ev.Tabs[n] = c.tabs[n].Fix()
-		ev.Autoinc[n] = 0
+		if c.tabs[n] != nil {
+			ev.Tabs[n] = c.tabs[n].Fix()
+			ev.Autoinc[n] = 0
+		}
 	}
 	r.w.Write(ev)
 	var f dml2.Fault
@@ -110,14 +134,17 @@ func (r *c15Runner) history(c *c15Case) {
 		// the unfaulted run, counting
 		pre := dml2.ReadAll(main.Sess, c.names)
 		tags := Tags(st, main.Tabs[st.T])
+		if c.x != "" {
+			tags = append([]string{c.x}, tags...)
+		}
 		f.Arm(0)
 		sql, rep := main.Exec(st)
 		f.Disarm()
 		n, ops := f.Calls, append([]string{}, f.Ops...)
 		post := dml2.ReadAll(main.Sess, c.names)
-		mainEv := c15Event{Ev: "stmt", H: c.h, ID: id, Stmt: st, K: 0, Calls: n, N: n, Ops: ops, Pre: pre, Reply: rep, Post: post,
+		mainEv := c15Event{Ev: px + "stmt", H: c.h, ID: id, Stmt: st, K: 0, Calls: n, N: n, Ops: ops, Pre: pre, Reply: rep, Post: post,
 			PreProbes: []dml2.Probe{}, Probes: []dml2.Probe{}, SQL: sql, Tags: tags}
-		if r.o.probes && rep.Kind != "ok" && rep.Kind != "rows" {
+		if probes && rep.Kind != "ok" && rep.Kind != "rows" {
 			// index contents after a naturally failed statement (successful ones are C16's subject)
 			mainEv.Probes = r.prober.All(main, c.h, union(post, pre))
 		}
@@ -148,8 +175,8 @@ func (r *c15Runner) history(c *c15Case) {
 		for _, k := range ks {
 			fx := r.fixture(c, i)
 			fpre := dml2.ReadAll(fx.Sess, c.names)
-			fe := c15Event{Ev: "fault", H: c.h, ID: id, Stmt: st, K: k, N: n, Pre: fpre, PreProbes: []dml2.Probe{}, Probes: []dml2.Probe{}, Tags: tags}
-			if r.o.probes && k == ks[len(ks)-1] {
+			fe := c15Event{Ev: px + "fault", H: c.h, ID: id, Stmt: st, K: k, N: n, Pre: fpre, PreProbes: []dml2.Probe{}, Probes: []dml2.Probe{}, Tags: tags}
+			if probes && k == ks[len(ks)-1] {
 				// every copy is built the same way: the probes before the statement are recorded once
 				fe.PreProbes = r.prober.All(fx, c.h, fpre)
 			}
@@ -158,7 +185,7 @@ func (r *c15Runner) history(c *c15Case) {
 			f.Disarm()
 			fe.Calls, fe.Ops = f.Calls, append([]string{}, f.Ops...)
 			fe.Post = dml2.ReadAll(fx.Sess, c.names)
-			if r.o.probes && (k >= 2 || !f.Fired() || !same(fpre, fe.Post)) {
+			if probes && (k >= 2 || !f.Fired() || !same(fpre, fe.Post)) {
 				// index contents after the discard (a fault at the first row edit discards nothing)
 				fe.Probes = r.prober.All(fx, c.h, union(fe.Post, fpre))
 			}
@@ -169,7 +196,16 @@ func (r *c15Runner) history(c *c15Case) {
 				r.rep.Nontrivial++
 			}
 			r.rep.Cases++
-			r.kinds["fault:"+fe.Reply.Kind+":"+fe.Reply.Class]++
+			r.kinds[px+"fault:"+fe.Reply.Kind+":"+fe.Reply.Class]++
+			if c.x != "" && len(fe.Ops) > 0 {
+				multi := false
+				for _, o := range fe.Ops {
+					multi = multi || !strings.HasPrefix(o, st.T+":")
+				}
+				if multi {
+					r.xmulti++
+				}
+			}
 			if show {
 				fmt.Printf("--   fault k=%d/%d -> %s %s unchanged=%v\n", k, n, fe.Reply.Kind, fe.Reply.Class, same(fpre, fe.Post))
 			}
@@ -193,12 +229,51 @@ func (r *c15Runner) history(c *c15Case) {
 	}
 }
 
+// xCase builds the x-history number h: foreign-key histories (statements with cascades) and, every
+// fourth one, a trigger history (the audit table is a trigger target).
+func xCase(seed int64, h int) *c15Case {
+	if h%4 == 0 {
+		th := dml2gen.C23History(seed*1000003 + int64(h))
+		w := len(th.Table.Cols)
+		extra := []string{dml2gen.AuditCreateSQL(w)}
+		for _, t := range th.Trigs {
+			extra = append(extra, t.SQL(w))
+		}
+		tabs := map[string]*Table{dml2gen.TrigBase: th.Table}
+		c := &c15Case{h: h, names: []string{dml2gen.TrigAudit, dml2gen.TrigBase}, tabs: tabs, x: "trig", stmts: th.Stmts}
+		c.setup = func() (*dml2.Fixture, []string, error) {
+			return dml2.NewFixture([]string{dml2gen.TrigBase}, tabs, extra...)
+		}
+		return c
+	}
+	fh := dml2gen.C18History(seed*1000003 + int64(h))
+	c := &c15Case{h: h, names: fh.Names, tabs: fh.Tables, x: "fk"}
+	c.setup = func() (*dml2.Fixture, []string, error) { return fkFixture(fh) }
+	for _, st := range fh.Steps {
+		if st.Op == "stmt" {
+			c.stmts = append(c.stmts, st.Stmt)
+		}
+	}
+	return c
+}
+
 func runC15(o opts, w *vio.Writer, rep *vio.Report) {
-	r := &c15Runner{o: o, w: w, rep: rep, prober: dml2.NewProber(), kinds: map[string]int{}, natural: map[string]int{}, rowpos: map[string]int{}}
+	logrus.SetOutput(io.Discard)
+	r := &c15Runner{o: o, w: w, rep: rep, prober: dml2.NewProber(), kinds: map[string]int{}, natural: map[string]int{}, rowpos: map[string]int{},
+		xhist: map[string]int{}}
 	switch o.mode {
 	case "gen":
 		for h := o.from; h < o.from+o.n; h++ {
 			if o.only >= 0 && h != o.only {
+				continue
+			}
+			if o.x {
+				c := xCase(o.seed, h)
+				for k := range c.stmts {
+					c.ids = append(c.ids, h*1000+k+1)
+				}
+				r.xhist[c.x]++
+				r.history(c)
 				continue
 			}
 			hist, initial := dml2gen.C15History(o.seed*1000003 + int64(h))
@@ -254,4 +329,6 @@ func runC15(o opts, w *vio.Writer, rep *vio.Report) {
 	rep.Extra["changed"] = r.changed
 	rep.Extra["probes"] = r.prober.N
 	rep.Extra["probes_via_index"] = r.prober.Ix
+	rep.Extra["x_histories"] = r.xhist
+	rep.Extra["x_fault_runs_reaching_other_tables"] = r.xmulti
 }
